@@ -51,6 +51,11 @@ def _get_guard(fn, target, key_ok):
             v = n.value
             if isinstance(v, ast.Call) and isinstance(v.func, ast.Attribute) and v.func.attr == "get" and len(v.args) == 2 and key_ok(v.args[0]) and isinstance(v.args[1], ast.Dict) and not v.args[1].keys:
                 return True
+            # the same written as `<x>.get(<key>) or {}`
+            if isinstance(v, ast.BoolOp) and isinstance(v.op, ast.Or) and len(v.values) == 2 and isinstance(v.values[1], ast.Dict) and not v.values[1].keys:
+                c = v.values[0]
+                if isinstance(c, ast.Call) and isinstance(c.func, ast.Attribute) and c.func.attr == "get" and len(c.args) == 1 and key_ok(c.args[0]):
+                    return True
             return False
     return False
 
